@@ -81,6 +81,15 @@ pub struct Plan {
     pub key_seed: u64,
     /// seed of the PRNG that makes this run's scheduling decisions
     pub sched_seed: u64,
+    /// how the host treats the configuration: false = deserialised once per distinct JSON text and
+    /// cloned into every task (one long-lived compiler instance); true = deserialised afresh for
+    /// every file on the worker and dropped when the file is done (what plugin/src/lib.rs does)
+    #[serde(default)]
+    pub opts_per_task: bool,
+    /// stack size (KiB) of the worker threads, per worker slot; missing = 65536. The stack a host
+    /// thread has is the host's business (main thread, pool thread, RUST_MIN_STACK, ulimit -s).
+    #[serde(default, skip_serializing_if = "Vec::is_empty")]
+    pub stack_kib: Vec<u32>,
     pub tasks: Vec<PlanTask>,
 }
 
